@@ -210,21 +210,21 @@ package coroutines
 //@ ensures [C15 C13] err != nil ==> kerr.platform(errcode(err))
 
 //@ func TimeoutLocks$1
-//@ props C09
+//@ props C09 C02
 //@ ghostdb coroutine
 //@ nopanic C13
 //@ requires c != nil && tags != nil
 //@ ensures linearizes(post_locks(anykey("sweep")) == pre_locks(anykey("sweep")) || post_locks(anykey("sweep")) == spec.TimeoutLocks.locks(pre_locks(anykey("sweep")), anykey("sweep"), T))
 
 //@ func TimeoutPromises$1
-//@ props C01 C04 C05 C08
+//@ props C01 C04 C05 C08 C02
 //@ serves C06
 //@ ghostdb coroutine
 //@ nopanic C13
 //@ requires c != nil && config != nil && tags != nil
 
 //@ func TimeoutTasks$1
-//@ props C07 C08
+//@ props C07 C08 C02
 //@ ghostdb coroutine
 //@ nopanic C13
 //@ requires c != nil && config != nil && tags != nil
@@ -232,7 +232,7 @@ package coroutines
 //@ site loop 1 batch assert (now() < t.Timeout ==> cmd.UpdateTask.State == task.Init && cmd.UpdateTask.Counter == t.Counter + 1) && (now() >= t.Timeout ==> cmd.UpdateTask.State == task.Timedout && cmd.UpdateTask.Counter == t.Counter)
 
 //@ func EnqueueTasks$1
-//@ props C07 C08 C19
+//@ props C07 C08 C19 C02
 //@ ghostdb coroutine
 //@ nopanic C13
 //@ requires c != nil && config != nil && tags != nil
@@ -245,7 +245,7 @@ package coroutines
 //@ site loop 3 batch assert decodedT.Mesg.Type != message.Notify && !(err == nil && completion.Sender.Success) ==> cmd.UpdateTask.State == task.Init && cmd.UpdateTask.Attempt == t.Attempt + 1
 
 //@ func SchedulePromises$1
-//@ props C01 C08 C10 C20
+//@ props C01 C08 C10 C20 C02 C06
 //@ serves C06
 //@ ghostdb coroutine
 //@ nopanic C13
@@ -277,6 +277,9 @@ package coroutines
 //@ requires taskCmd != nil ==> taskCmd.Mesg.Root == promiseCmd.Id
 // one transaction: the create command followed by every command the caller passed (the schedule advance of SchedulePromises, C10)
 //@ site yield store assert len(cmds) == len(additionalCmds) + 1
+// a promise for which a task was asked (create-with-task) or whose routing matched is only ever created together with that task: never half-done (C08)
+//@ site yield store assert taskCmd != nil ==> cmds[0] != nil && cmds[0].Kind == t_aio.CreatePromiseAndTask && cmds[0].CreatePromiseAndTask != nil && cmds[0].CreatePromiseAndTask.TaskCommand == taskCmd
+//@ site yield store assert taskCmd == nil ==> cmds[0] != nil && cmds[0].Kind == t_aio.CreatePromise
 //@ ensures [await C08 C10] err == nil ==> result0 != nil && result0.Store != nil && len(result0.Store.Results) >= 1 && result0.Store.Results[0] != nil
 //@ ensures [await C08 C10] err == nil ==> (result0.Store.Results[0].Kind == t_aio.CreatePromise && result0.Store.Results[0].CreatePromise != nil) || (result0.Store.Results[0].Kind == t_aio.CreatePromiseAndTask && result0.Store.Results[0].CreatePromiseAndTask != nil)
 //@ ensures [await C08 C10] err != nil ==> result0 == nil
